@@ -199,6 +199,40 @@ where
     }
 }
 
+/// Little-endian limbs of the BLS12-381 base field modulus.
+const FP_MODULUS: [u64; 6] = [
+    0xb9fe_ffff_ffff_aaab,
+    0x1eab_fffe_b153_ffff,
+    0x6730_d2a0_f6b0_f624,
+    0x6477_4b84_f385_12bf,
+    0x4b1b_a7b6_434b_acd7,
+    0x1a01_11ea_397f_e69a,
+];
+
+/// Checks that `chunk` is the canonical raw encoding of a `G1Affine`: both
+/// coordinates are stored as six little-endian limbs below the field modulus
+/// and the trailing infinity flag is `0` or `1`.
+fn raw_point_is_canonical(chunk: &[u8]) -> bool {
+    if chunk.len() != G1Affine::RAW_SIZE || chunk[G1Affine::RAW_SIZE - 1] > 1 {
+        return false;
+    }
+
+    chunk[..G1Affine::RAW_SIZE - 1]
+        .chunks_exact(48)
+        .all(|coordinate| {
+            // compare from the most significant limb down
+            for i in (0..6).rev() {
+                let mut limb = [0u8; 8];
+                limb.copy_from_slice(&coordinate[8 * i..8 * i + 8]);
+                let limb = u64::from_le_bytes(limb);
+                if limb != FP_MODULUS[i] {
+                    return limb < FP_MODULUS[i];
+                }
+            }
+            false
+        })
+}
+
 impl CommitKey {
     /// Serialize the [`CommitKey`] into bytes.
     ///
@@ -284,6 +318,12 @@ impl CommitKey {
         let mut powers_of_g = Vec::with_capacity(len);
 
         for chunk in bytes[u64::SIZE..].chunks_exact(G1Affine::RAW_SIZE) {
+            // The unchecked decoder takes the limbs and the flag byte as they
+            // come: only the canonical raw encoding may reach it.
+            if !raw_point_is_canonical(chunk) {
+                return Err(Error::PointMalformed);
+            }
+
             // Safety: raw-byte chunk size is checked by `chunks_exact`.
             let point = unsafe { G1Affine::from_slice_unchecked(chunk) };
             let point_is_valid =
